@@ -374,6 +374,10 @@ def run(spec, ctx):
         from vf.props import c20
         c20.load_chipdata("full")          # before any fork: references and histories see the same chip data
         ctx.see("chipdata", "full")
+    elif spec["shard"] % 4 == 1:
+        from vf.props import c20
+        c20.load_chipdata("damaged")       # a truncated chip data file: the failure must be the same on every decode
+        ctx.see("chipdata", "damaged")
     pool = build_pool(rng, u, reg, spec["pool"])
     alltokens = {}
     for i, it in enumerate(pool):
